@@ -220,7 +220,7 @@ def run(shard, tier, seed):
     @hypothesis.seed(env.subseed(seed, ID, "hist", shard["i"]))
     @settings(max_examples=n, deadline=None, database=None, suppress_health_check=list(hypothesis.HealthCheck),
               phases=[hypothesis.Phase.generate])
-    @given(st.randoms(use_true_random=False), st.sampled_from(chainexec.CFGS), st.integers(*nb))
+    @given(st.randoms(use_true_random=True), st.sampled_from(chainexec.CFGS), st.integers(*nb))
     def prop(rnd, cfg, k):
         case = chainexec.gen_case(rnd, cfg, k, 0.0, ["C05"], p_fork=0.65, p_tx=0.4)
         fails = replay(case)
